@@ -93,8 +93,12 @@ def difference(d1, d2, level=-1):
         elif d1[key] != d2[key]:
             res = difference(d1[key], d2[key], level-1)
             # if d2[key] contains all d1[key] elements,
-            # the difference will be empty
-            if res:
+            # the difference will be empty.
+            # Values that are not both dictionaries (or are compared
+            # at the last level) differ and belong to the result
+            # even if they are false (0, None, "", {}).
+            if (res or level == 1 or not isinstance(d1[key], dict)
+                    or not isinstance(d2[key], dict)):
                 result[key] = res
     return result
 
